@@ -614,7 +614,7 @@ def resampleStepwise(xin, yin, xout, avg=True):
     for i in range(1, len(bins)):
         start = bins[i - 1]
         end = bins[i]
-        chunk = yin[start - 1 : end]
+        chunk = list(yin[start - 1 : end])
         length = xin[start - 1 : end + 1]
         length = [length[j] - length[j - 1] for j in range(1, len(length))]
 
